@@ -445,6 +445,8 @@ def run(ctx: Ctx):
     # ---- S5' the chunked windows: element (i, r, b) of the strided view is hist[t + r - Nm1 + i, b] -------------------
     _strided_windows(ctx, rel)
     _sos_renamed_in_every_order(ctx, rel)
+    _history_window_table(ctx, rel)
+    _arpa_table(ctx)
 
     _offset_width_headroom(ctx, rel)
     _arpa_numeric_grammar(ctx)
@@ -558,6 +560,134 @@ def _sos_renamed_in_every_order(ctx: Ctx, rel: str):
            (f"for a table of order {bad[0]} the start symbol is re-keyed in the orders {bad[1]} (0-based) only: an n-gram of a skipped order "
             f"that contains the start symbol keeps the old id, the kernel (which pads with vocab_size) never finds it and backs off instead") if bad else "",
            rel, blk.lineno, sample=dict(sites=len(visits)))
+
+
+def _history_window_table(ctx: Ctx, rel: str):
+    """S11 by value: the head of the kernel - up to the statement that selects the context window, in its scalar-index and its
+    per-element-index arm - is interpreted over exact values (sa/interp.py + sa/teval.py): for a history of 5 steps x 2 sequences with
+    distinct tokens, orders N = 2, 3, 4, every scalar index 0..5 (as a 0-dimensional and as a one-element tensor) and several index
+    vectors, the selected window must be the N - 1 tokens that END just before the index, left-padded with the start symbol:
+    rows idx-(N-1) .. idx-1 of the history, NOT the newest N - 1 rows of what was passed ('one index at a time' and 'a different index
+    per batch element' give the numbers of 'all positions at once')."""
+    import copy
+    import numpy as np
+    from fractions import Fraction
+    from sa.interp import Interp
+    from sa.inteval import NotEvaluable
+    from sa.teval import frac_array
+    col, pkg = ctx.col, ctx.pkg
+    kern = pkg.func(f"{MOD}::{KERNEL}")
+    where = f"{rel}::{KERNEL}"
+    hname = kern.params[0].name
+    body = list(kern.node.body)
+    cut = None
+    for i_, st in enumerate(body):
+        if isinstance(st, ast.If) and st.orelse and all(any(isinstance(x, ast.Assign) and any(isinstance(t_, ast.Name) and t_.id == hname for t_ in x.targets)
+                                                              for x in ast.walk(ast.Module(body=arm, type_ignores=[]))) for arm in (st.body, st.orelse)):
+            cut = i_
+    if cut is None:
+        raise AnalysisError("C06: the window selection (scalar / per-element index arms) of the kernel was not found")
+    head = copy.copy(kern.node)
+    head.body = body[:cut + 1] + [ast.Return(value=ast.Name(id=hname, ctx=ast.Load()))]
+    names = [p_.name for p_ in kern.params]
+    T, B, V, SOS = 5, 2, 50, -1
+    hist = np.array([[10 * t_ + b_ + 1 for b_ in range(B)] for t_ in range(T)])
+    bad, rows = None, 0
+    try:
+        for N in (2, 3, 4):
+            O, G = 9, 5
+            U = V + 1 + 1
+            def _zero_dim(v_):
+                a_ = np.empty((), dtype=object)
+                a_[()] = Fraction(v_)
+                return a_
+            cases = [("scalar", _zero_dim(i_)) for i_ in range(T + 1)] + [("one-element", frac_array([i_])) for i_ in range(T + 1)] \
+                + [("vector", frac_array(v_)) for v_ in ([1, 4], [5, 0], [3, 3], [0, 0], [2, 5])]
+            for kind_, idx in cases:
+                env = dict(zip(names, (frac_array(hist.tolist()), idx, frac_array([0] * O), frac_array([0] * (O + G - U if O + G - U > 0 else 0)),
+                                       frac_array([0] * (O + G)), frac_array([0] * O), SOS, V, N, G, 3)))
+                # buffer sizes that satisfy the kernel's own size assertion whatever they are: answered by the leaf
+
+                def leaf(x, env_):
+                    if isinstance(x, ast.Call) and isinstance(x.func, ast.Attribute) and x.func.attr == "numel" and isinstance(x.func.value, ast.Name) \
+                            and x.func.value.id in names[2:6]:
+                        return {names[2]: O, names[3]: O + G - U, names[4]: O + G, names[5]: O}[x.func.value.id]
+                    return None
+                kind, got = Interp(leaf=leaf, tensors=True).run(head, env)
+                rows += 1
+                padded = np.concatenate([np.full((N - 1, B), SOS), hist], 0)
+                iv = [int(v_) for v_ in np.asarray(idx).reshape(-1).tolist()]
+                iv = iv * B if len(iv) == 1 else iv
+                want = np.stack([padded[i_: i_ + N - 1, b_] for b_, i_ in enumerate(iv)], 1)
+                ok = kind == "return" and hasattr(got, "shape") and tuple(got.shape) == (N - 1, B) and [[int(v_) for v_ in r_] for r_ in np.asarray(got).tolist()] == want.tolist()
+                if not ok and bad is None:
+                    bad = (N, kind_, iv, np.asarray(got).tolist() if kind == "return" and hasattr(got, "shape") else f"{kind} {got}", want.tolist())
+    except NotEvaluable as e:
+        col.undecided(f"{where}: the window selection is outside the interpreted fragment ({e})")
+        return
+    col.floor("history_window_rows", rows, 30)
+    col.ob("G12", "S11", f"{where}::context-window-ends-at-the-index", bad is None,
+           (f"order {bad[0]}, {bad[1]} index {bad[2]} into a history of {T} steps {hist.T.tolist()} (one row per sequence): the kernel reads the context "
+            f"{[[str(v_) for v_ in r_] for r_ in bad[3]] if isinstance(bad[3], list) else bad[3]} (one row per step); the {bad[0] - 1} token(s) before the index, "
+            f"start-symbol padded, are {bad[4]}") if bad else "", rel, kern.line, sample=dict(rows=rows))
+
+
+def _arpa_table(ctx: Ctx):
+    """S12 by value: `parse_arpa_lm` is interpreted (sa/pyinterp.py; the `re` and `math` modules of the standard library are called,
+    nothing of the repository is) on an ARPA text with a header, three orders, explicit and implicit back-off weights, exponents and a
+    leading-dot number - as an open file (a line stream that later loops continue to consume): in base 10 the result is exactly the
+    listed entries (implicit back-offs 0, none for the highest order); with to_base_e every number is the listed one times ln 10; a
+    token map re-keys the entries. Skipped when outside the interpreted fragment (the structural clauses stand alone)."""
+    import math
+    from sa.pyinterp import PyInterp, LineStream
+    from sa.inteval import NotEvaluable
+    col, pkg = ctx.col, ctx.pkg
+    mod = pkg.module("_parsing")
+    rel = mod.relname
+    f = next((st for st in mod.tree.body if isinstance(st, ast.FunctionDef) and st.name == "parse_arpa_lm"), None)
+    if f is None:
+        raise AnalysisError("C06: parse_arpa_lm not found")
+    text = ("some header\n\n\\data\\\nngram 1=3\nngram 2=2\nngram 3=1\n\n\\1-grams:\n-1.5 a -0.25\n-0.75 b\n-2 c -1e-1\n\n"
+            "\\2-grams:\n-0.5 a b -0.125\n-.25 b c\n\n\\3-grams:\n-0.0625 a b c\n\n\\end\\\n")
+    lines = [l + "\n" for l in text.split("\n")]
+    listed = [{"a": (-1.5, -0.25), "b": (-0.75, 0.0), "c": (-2.0, -0.1)}, {("a", "b"): (-0.5, -0.125), ("b", "c"): (-0.25, 0.0)}, {("a", "b", "c"): -0.0625}]
+    ids = {"a": 0, "b": 1, "c": 2}
+
+    def leaf(e, env):
+        if isinstance(e, ast.Call) and call_name(e) == "warnings.warn":
+            return "warned"
+        return None
+
+    def close(a, b):
+        if isinstance(a, tuple) and isinstance(b, tuple):
+            return len(a) == len(b) and all(close(x, y) for x, y in zip(a, b))
+        return isinstance(a, (int, float)) and isinstance(b, (int, float)) and abs(a - b) <= 1e-12 * max(1.0, abs(b))
+    names = [a.arg for a in f.args.args]
+    bad, n = None, 0
+    try:
+        for base_e in (False, True):
+            for t2i in (None, ids):
+                scale = math.log(10.0) if base_e else 1.0
+
+                def key(k):
+                    if t2i is None:
+                        return k
+                    return t2i[k] if isinstance(k, str) else tuple(t2i[x] for x in k)
+                want = [{key(k): (tuple(x * scale for x in v) if isinstance(v, tuple) else v * scale) for k, v in d.items()} for d in listed]
+                env = dict(zip(names, (LineStream(lines), t2i, base_e, float, None)))
+                kind, got = PyInterp(leaf=leaf).run(f, env)
+                n += 1
+                ok = kind == "return" and isinstance(got, list) and len(got) == len(want) and all(
+                    isinstance(g, dict) and set(g) == set(w) and all(close(g[k], w[k]) for k in w) for g, w in zip(got, want))
+                if not ok and bad is None:
+                    bad = (base_e, t2i is not None, got if kind == "return" else f"raises {got}", want)
+    except NotEvaluable:
+        return
+    col.count("arpa_table_rows", n)
+    col.ob("G12", "S12", f"{rel}::parse_arpa_lm::entries-table", bad is None,
+           (f"with to_base_e={bad[0]}{' and a token map' if bad[1] else ''} the reader returns {str(bad[2])[:300]}; the file lists {str(bad[3])[:300]} "
+            f"({'each number times ln 10' if bad[0] else 'base 10, as listed'}; implicit back-off weights are 0, the highest order has none)") if bad else "",
+           rel, f.lineno, sample=dict(rows=n))
 
 
 def _strided_windows(ctx: Ctx, rel: str):
